@@ -6,6 +6,7 @@ use std::io::{BufRead, Write};
 mod common;
 mod s_c15;
 mod s_rd;
+mod s_wr;
 
 fn dispatch(line: &str) -> String {
     let toks: Vec<&str> = line.split(' ').filter(|t| !t.is_empty()).collect();
@@ -13,6 +14,8 @@ fn dispatch(line: &str) -> String {
         Some("c15") => s_c15::run(&toks[1..]),
         Some("rd") => s_rd::run(&toks[1..]),
         Some("o_rd") => s_rd::oracle(&toks[1..]),
+        Some("wr") => s_wr::run(&toks[1..]),
+        Some("o_wr") => s_wr::oracle(&toks[1..]),
         Some(s) => format!("HARNESS-ERROR unknown stream {s}"),
         None => String::new(),
     }
